@@ -9,3 +9,4 @@ import RaftWal.Props.C06
 #print axioms RaftWal.C06.reads_gated_on_commit_index
 #print axioms RaftWal.C06.finalizer_attached_after_publish
 #print axioms RaftWal.C06.writers_wait_for_queued_rotation
+#print axioms RaftWal.C06.every_acquire_is_released_once
